@@ -68,6 +68,31 @@ claim('C15',
       'Trusted: python ast, E1/E2, the closed table of operations that can raise on JSON values, orjson producing '
       'only dict/list/str/int/float/bool/None with str keys. RecursionError on ~500 nested namespaces is out of reach.')
 
+claim('C17',
+      'provenance judgement on every write to the TextBlock line buffer (clean-line-list abstract property), '
+      'ownership analysis for buffer aliasing, shape rules on __str__ and flatten_to_strlist, over python ast',
+      'Static rule set for the invariant part of the property: every string entering a block\'s buffer comes from '
+      'str.splitlines() without keepends, the guarded empty string, another block\'s lines or a per-line map / '
+      'sub-list of such a list, so no stored line contains a line break and each physical line is one entry; blocks '
+      'never share a buffer; the string form is every header and content line followed by exactly one EOL (empty '
+      'block -> empty string); flattening recurses into lists and dict values in order with the empty-string skip as '
+      'the only filter, and append keeps empty strings. The algebraic laws of the statement (round trip, reference '
+      'flattener, trim, chunk) are value-level equalities and are NOT decided.',
+      'Trusted: python ast, E1 types, semantics of str.splitlines/join. Assumes callers of the public lines setter '
+      'pass line-break-free strings and that bullet glyphs contain no line break.')
+
+claim('C18',
+      'sibling rule to_str/to_list (join-shape recognition), termination-shape analysis, cardinality judgement on the '
+      'result expressions of to_list, guard rules on prefixing expressions, write-set rule for indent(), over python ast',
+      'Static rule set: Indentizer.to_str is EOL.join(self.to_list(arg)) + EOL (the two forms agree by construction); '
+      'no unconditional self-recursion in the text layer; every result of to_list is an order- and length-preserving '
+      'map of the flattened input (no filter, head/tail split covers the input once); the whitespace prefix is only '
+      'applied to non-blank lines and bullet-prefixed lines are stripped; the prefix is SPACE*n or TAB and the '
+      'continuation prefix is re-derived from the bullet width; indent() never writes the header. That the text of a '
+      'line is unchanged for every string (strip() in bullet modes also removes leading whitespace) is value-level and '
+      'not decided.',
+      'Trusted: python ast, E1/E2, the recognised expression shapes; an unrecognised shape is an ANALYSIS-ERROR.')
+
 _pending = 'check not built yet in this round (design in DESIGN.md section 3); will be claimed when its rules run clean'
 for _p in ['C01', 'C02', 'C03', 'C04', 'C05', 'C06', 'C07', 'C09', 'C10', 'C11', 'C14',
            'C17', 'C18', 'C19', 'C20']:
